@@ -94,6 +94,25 @@ Proof.
          end; try discriminate; inversion H; subst; repeat split; reflexivity.
 Qed.
 
+(* the replies the server renders are replies of the grammar *)
+Lemma reply_ok_mk : forall st code text c,
+  match code with Some x => code_ok x | None => True end -> reply_ok (mk_reply st code text c).
+Proof.
+  intros st code text c H. unfold reply_ok, mk_reply. cbn [r_code].
+  destruct st; try exact H. destruct code; [exact H|].
+  destruct ((c / 8) mod 2 =? 1)%N; [|exact I]. unfold code_ok. repeat split; vm_compute; reflexivity.
+Qed.
+
+Lemma mk_reply_status : forall st code text c, r_status (mk_reply st code text c) = st.
+Proof. reflexivity. Qed.
+
+Lemma mk_reply_text : forall st code text c,
+  text_of (mk_reply st code text c) = if ((c / 2) mod 4 =? 0)%N then [] else text.
+Proof. intros. unfold text_of, mk_reply. cbn [r_text]. destruct ((c / 2) mod 4 =? 0)%N; reflexivity. Qed.
+
+Lemma mk_reply_code_no : forall code text c, code_of (mk_reply StNO code text c) = match code with Some x => x | None => [] end.
+Proof. reflexivity. Qed.
+
 Lemma conforming_live : forall s, conforming s -> live s /\ fault_now s = FNone.
 Proof. intros s (A & B & C). unfold live, fault_now. rewrite C. auto. Qed.
 
@@ -255,7 +274,7 @@ Proof.
             | _ => mk_reply StOK None [] c
             end) in *.
   assert (Hok : reply_ok r).
-  { subst r. destruct a as [[x|]|[x|]| | |]; try contradiction; unfold reply_ok, mk_reply; cbn; auto. }
+  { subst r. destruct a as [[x|]|[x|]| | |]; try contradiction; apply reply_ok_mk; auto. }
   assert (Hreact' : srv_react (s_peer sstate w) (command_bytes verb args) = (s3, render_reply r ++ [])).
   { rewrite app_nil_r. exact Hreact. }
   destruct (simple_cmd_mirror sstate srv_react srv_connect srv_tls r f verb args st w s3 [] Hok Hs Hreact')
